@@ -218,11 +218,36 @@ def _mutate(r, depth=0, skip=frozenset()):
     return done
 
 
+def _instance_probe(r, v, proj):
+    """model instances: passing an instance to its own class returns it; an instance equals a
+    second instance built from the same data and differs from one built from other data"""
+    from statham.schema.elements import Object
+    if not isinstance(r, Object):
+        return proj
+    cls = type(r)
+    bad = []
+    import warnings
+    try:
+        with warnings.catch_warnings():
+            warnings.simplefilter("ignore")
+            if cls(r) is not r:
+                bad.append("__instance_not_returned__")
+            twin = cls(copy.deepcopy(v))
+            if not (twin == r and r == twin) or (twin != r):
+                bad.append("__equal_data_unequal_instances__")
+    except Exception:  # noqa
+        bad.append("__instance_probe_raises__")
+    for b in bad:
+        proj.members.append((b, True))
+    return proj
+
+
 def _obs_call(el, v, probe=True, skip=frozenset()):
     k, r = drive.call(el, v)
     if k == "ok":
         try:
             p1 = drive.project(r)
+            p1 = _instance_probe(r, v, p1)
         except Exception as exc:  # projection failure = unknown result shape
             return {"kind": "other:unprojectable", "out": None, "msg": repr(exc)[:200]}
         if probe and _mutate(r, 0, skip):
